@@ -1221,6 +1221,9 @@ func (c *Ctx) compactGuards(ce *ssa.Function) {
 			if !escapes {
 				ok = true
 			}
+			if !ok && hoistedDiffers(bf, em, sp.event) {
+				ok = true
+			}
 		}
 		c.check(ok, fn, "e:emits "+sp.event+" when changed", c.Pos(em.Call.Pos()), "the "+sp.event+" event is emitted whenever task."+sp.field+" differs from the created value",
 			"the "+sp.event+" event is not guaranteed when task."+sp.field+" differs from the value in the create event (e.g. a change recorded with the creation timestamp): the field reverts on compact")
